@@ -722,3 +722,289 @@ def witness(cfg: CFG, parent: dict, node: Node, state: tuple) -> str:
     if len(items) > 14:
         items = items[:7] + ["..."] + items[-7:]
     return " -> ".join(items)
+
+
+# ---------------------------------------------------------------------
+# make_environ's header loop: evaluation of one iteration on a sample header name
+#
+# The header NAME is concrete (a sample string: generic names, underscore names, the Content-Type/Length spellings and
+# every name derived from a string constant that occurs in the loop, so that each equality / membership test in the
+# loop has a sample on either side); what is computed from it is computed with python's own str methods on that
+# constant.  The header VALUE and the earlier content of the environ are symbolic tokens.  A condition that cannot be
+# evaluated is followed on both edges.
+
+HV = ("V",)  # the header value as received (with or without removal of obs-fold CRLF)
+_STR_METHODS = {"upper", "lower", "casefold", "title", "capitalize", "swapcase", "strip", "lstrip", "rstrip", "replace", "removeprefix", "removesuffix"}
+
+
+def _htoks(parts: list) -> t.Any:
+    if all(isinstance(p, str) for p in parts):
+        return "".join(parts)
+    out: list = []
+    for p in parts:
+        if isinstance(p, str):
+            if p:
+                out.append(("B", p))
+        else:
+            out += p
+    return merge(out)
+
+
+def hval(e: ast.AST, env: dict[str, t.Any], environ: str, cond: t.Callable[[ast.AST], bool | None]) -> t.Any:
+    """str (concrete) or token list [HV | ("ENV", key) | ("B", text) | ("?", source)]."""
+    if isinstance(e, ast.Constant) and isinstance(e.value, str):
+        return e.value
+    if isinstance(e, ast.Name):
+        return env[e.id] if e.id in env else _q(e)
+    if isinstance(e, ast.JoinedStr):
+        parts = []
+        for v in e.values:
+            if isinstance(v, ast.Constant):
+                parts.append(str(v.value))
+            elif isinstance(v, ast.FormattedValue) and v.format_spec is None and v.conversion in (-1, None):
+                parts.append(hval(v.value, env, environ, cond))
+            else:
+                return _q(e)
+        return _htoks(parts)
+    if isinstance(e, ast.BinOp) and isinstance(e.op, ast.Add):
+        return _htoks([hval(e.left, env, environ, cond), hval(e.right, env, environ, cond)])
+    if isinstance(e, ast.BinOp) and isinstance(e.op, ast.Mod) and isinstance(e.left, ast.Constant) and isinstance(e.left.value, str):
+        args = list(e.right.elts) if isinstance(e.right, ast.Tuple) else [e.right]
+        pieces = e.left.value.split("%s")
+        if len(pieces) != len(args) + 1 or any("%" in p for p in pieces):
+            return _q(e)
+        parts = [pieces[0]]
+        for a, p in zip(args, pieces[1:]):
+            parts += [hval(a, env, environ, cond), p]
+        return _htoks(parts)
+    if isinstance(e, ast.Subscript) and isinstance(e.value, ast.Name) and e.value.id == environ:
+        k = hval(e.slice, env, environ, cond)
+        return [("ENV", k)] if isinstance(k, str) else _q(e)
+    if isinstance(e, ast.IfExp):
+        c = cond(e.test)
+        if c is None:
+            return _q(e)
+        return hval(e.body if c else e.orelse, env, environ, cond)
+    if isinstance(e, ast.Call) and isinstance(e.func, ast.Attribute):
+        f = e.func
+        if isinstance(f.value, ast.Name) and f.value.id == environ and f.attr == "get" and not e.keywords and (len(e.args) == 1 or (len(e.args) == 2 and isinstance(e.args[1], ast.Constant) and e.args[1].value is None)):
+            k = hval(e.args[0], env, environ, cond)
+            return [("ENV", k)] if isinstance(k, str) else _q(e)
+        if f.attr == "join" and isinstance(f.value, ast.Constant) and isinstance(f.value.value, str) and len(e.args) == 1 and isinstance(e.args[0], (ast.List, ast.Tuple)) and not e.keywords:
+            parts = []
+            for i, x in enumerate(e.args[0].elts):
+                if i:
+                    parts.append(f.value.value)
+                parts.append(hval(x, env, environ, cond))
+            return _htoks(parts)
+        obj = hval(f.value, env, environ, cond)
+        const_args = all(isinstance(a, ast.Constant) and isinstance(a.value, str) for a in e.args) and not e.keywords
+        if isinstance(obj, str) and f.attr in _STR_METHODS and const_args:
+            try:
+                return getattr(obj, f.attr)(*[a.value for a in e.args])  # type: ignore[attr-defined]
+            except Exception:
+                return _q(e)
+        if isinstance(obj, list) and f.attr == "replace" and const_args and [a.value for a in e.args] == ["\r\n", ""]:  # type: ignore[attr-defined]
+            return obj  # obs-fold removal: not distinguished from the value as received
+        return _q(e)
+    if isinstance(e, ast.Call) and dotted(e.func) == "str" and len(e.args) == 1 and not e.keywords:
+        return hval(e.args[0], env, environ, cond)
+    return _q(e)
+
+
+def hcond(e: ast.AST, env: dict[str, t.Any], environ: str, present: t.Collection[str]) -> bool | None:
+    """truth value of a condition in the header loop; None when it cannot be decided from the sample."""
+    rec = lambda x: hcond(x, env, environ, present)  # noqa: E731
+    if isinstance(e, ast.UnaryOp) and isinstance(e.op, ast.Not):
+        v = rec(e.operand)
+        return None if v is None else not v
+    if isinstance(e, ast.BoolOp):
+        vals = [rec(v) for v in e.values]
+        if isinstance(e.op, ast.And):
+            return False if any(v is False for v in vals) else (None if any(v is None for v in vals) else True)
+        return True if any(v is True for v in vals) else (None if any(v is None for v in vals) else False)
+    if isinstance(e, ast.Compare) and len(e.ops) == 1:
+        op, a, b = e.ops[0], e.left, e.comparators[0]
+        is_env = isinstance(b, ast.Name) and b.id == environ or (isinstance(b, ast.Call) and isinstance(b.func, ast.Attribute) and b.func.attr == "keys" and isinstance(b.func.value, ast.Name) and b.func.value.id == environ)
+        if isinstance(op, (ast.In, ast.NotIn)) and is_env:
+            k = hval(a, env, environ, rec)
+            if not isinstance(k, str):
+                return None
+            return (k in present) == isinstance(op, ast.In)
+        if isinstance(op, (ast.Is, ast.IsNot)) and isinstance(b, ast.Constant) and b.value is None:
+            v = hval(a, env, environ, rec)
+            if isinstance(v, list) and len(v) == 1 and v[0][0] == "ENV":
+                return (v[0][1] not in present) == isinstance(op, ast.Is)
+            if isinstance(v, str):
+                return isinstance(op, ast.IsNot)
+            return None
+    if isinstance(e, ast.Name) or isinstance(e, ast.Call):
+        v = hval(e, env, environ, rec)
+        if isinstance(v, list) and len(v) == 1 and v[0][0] == "ENV":
+            return None if v[0][1] in present else False  # an earlier value may be empty; an absent one is None
+        if isinstance(v, str):
+            return bool(v)
+
+    def bind(x: ast.AST) -> tuple[bool, t.Any]:
+        if isinstance(x, (ast.Name, ast.Call, ast.JoinedStr, ast.BinOp, ast.Subscript)):
+            v = hval(x, env, environ, rec)
+            if isinstance(v, str):
+                return True, v
+        return False, None
+
+    try:
+        return bool(ev(e, bind))
+    except Unknown:
+        return None
+
+
+def loop_iteration_paths(cfg: CFG, head: Node, limit: int = 5000) -> list[Path]:
+    """paths of one iteration of a `for` loop: from the head's body edge to the head again, the normal exit or the raising
+    exit; every edge at most once; exceptional edges are not followed."""
+    out: list[Path] = []
+    stops = {head.id, cfg.exit.id, cfg.raise_exit.id}
+    stack: list[tuple[Node, Path, frozenset]] = [(s, [(head, "T")], frozenset()) for s, l in head.succs if l == "T"]
+    while stack:
+        n, p, used = stack.pop()
+        if n.id in stops:
+            out.append(p + [(n, None)])
+            if len(out) > limit:
+                raise AnalysisError(f"more than {limit} paths through the loop body")
+            continue
+        for i, (s, l) in enumerate(n.succs):
+            if l == "exc" or (n.id, i) in used:
+                continue
+            stack.append((s, p + [(n, l)], used | {(n.id, i)}))
+    return out
+
+
+# ---------------------------------------------------------------------
+# one level of helper inlining (AST to AST), so that the CFG-based rules see what the function does
+#
+# * `self._h(a, b)` as a statement, where _h is a plain method of the same class whose body contains no `return` with a
+#   value and no `return` other than a trailing one, is replaced by the body of _h: parameters that receive a plain
+#   name and are never rebound in _h are substituted, other parameters are bound by an assignment first; the locals
+#   of _h are renamed (`__h__name`) so that they cannot clash with the caller's.
+# * `self._p()` in an expression, where the body of _p is a single `return <expr>` and _p has no parameters, is
+#   replaced by <expr>.
+# Line numbers of the inlined statements are those of the helper.
+
+
+def clone(n: t.Any) -> t.Any:
+    """structural copy of an AST (without the loader's parent back-pointers)."""
+    if isinstance(n, ast.AST):
+        new = n.__class__()
+        for f in n._fields:
+            if hasattr(n, f):
+                setattr(new, f, clone(getattr(n, f)))
+        for a in n._attributes:
+            if hasattr(n, a):
+                setattr(new, a, getattr(n, a))
+        return new
+    if isinstance(n, list):
+        return [clone(x) for x in n]
+    return n
+
+
+def _strip_doc(body: list[ast.stmt]) -> list[ast.stmt]:
+    if body and isinstance(body[0], ast.Expr) and isinstance(body[0].value, ast.Constant) and isinstance(body[0].value.value, str):
+        return body[1:]
+    return body
+
+
+def _plain_method(m: ast.AST) -> bool:
+    if not isinstance(m, ast.FunctionDef) or m.decorator_list:
+        return False
+    a = m.args
+    return bool(a.args) and a.args[0].arg == "self" and not (a.vararg or a.kwarg or a.kwonlyargs or a.posonlyargs or a.defaults)
+
+
+def _self_method_call(c: ast.AST) -> str | None:
+    if isinstance(c, ast.Call) and isinstance(c.func, ast.Attribute) and isinstance(c.func.value, ast.Name) and c.func.value.id == "self":
+        return c.func.attr
+    return None
+
+
+def inline_methods(fn: ast.AST, methods: dict[str, ast.AST], exclude: t.Collection[str] = ()) -> tuple[ast.AST, set[str]]:
+    inlined: set[str] = set()
+    new_fn = clone(fn)
+
+    def expr_helper(name: str) -> ast.AST | None:
+        m = methods.get(name)
+        if m is None or name in exclude or not _plain_method(m) or len(m.args.args) != 1:  # type: ignore[attr-defined]
+            return None
+        body = _strip_doc(m.body)  # type: ignore[attr-defined]
+        if len(body) == 1 and isinstance(body[0], ast.Return) and body[0].value is not None and not any(isinstance(x, (ast.Call, ast.Await, ast.Yield, ast.YieldFrom, ast.NamedExpr)) for x in ast.walk(body[0].value)):
+            return body[0].value
+        return None
+
+    def stmt_helper(c: ast.Call) -> list[ast.stmt] | None:
+        name = _self_method_call(c)
+        m = methods.get(name or "")
+        if m is None or name in exclude or not _plain_method(m) or c.keywords or any(isinstance(a, ast.Starred) for a in c.args):
+            return None
+        params = [a.arg for a in m.args.args[1:]]  # type: ignore[attr-defined]
+        if len(params) != len(c.args):
+            return None
+        body = _strip_doc(m.body)  # type: ignore[attr-defined]
+        if body and isinstance(body[-1], ast.Return) and body[-1].value is None:
+            body = body[:-1]
+        for st in body:
+            for x in ast.walk(st):
+                if isinstance(x, (ast.Return, ast.Yield, ast.YieldFrom, ast.Await, ast.Global, ast.Nonlocal, ast.FunctionDef, ast.AsyncFunctionDef, ast.Lambda, ast.ClassDef)):
+                    return None
+        stored = {x.id for st in body for x in ast.walk(st) if isinstance(x, ast.Name) and isinstance(x.ctx, (ast.Store, ast.Del))}
+        mapping: dict[str, str] = {}
+        pre: list[ast.stmt] = []
+        for prm, arg in zip(params, c.args):
+            if isinstance(arg, ast.Name) and prm not in stored:
+                mapping[prm] = arg.id
+            else:
+                mapping[prm] = f"__{name}__{prm}"
+                asg = ast.Assign(targets=[ast.Name(id=mapping[prm], ctx=ast.Store())], value=clone(arg))
+                pre.append(ast.copy_location(asg, c))
+        for nm in stored:
+            mapping.setdefault(nm, f"__{name}__{nm}")
+        out = pre + clone(body)
+        for st in out:
+            for x in ast.walk(st):
+                if isinstance(x, ast.Name) and x.id in mapping:
+                    x.id = mapping[x.id]
+        for st in pre:
+            ast.fix_missing_locations(st)
+        inlined.add(name)  # type: ignore[arg-type]
+        return out or [ast.copy_location(ast.Pass(), c)]
+
+    class Exprs(ast.NodeTransformer):
+        def visit_Call(self, c: ast.Call) -> ast.AST:  # noqa: N802
+            self.generic_visit(c)
+            name = _self_method_call(c)
+            if name and not c.args and not c.keywords:
+                e = expr_helper(name)
+                if e is not None:
+                    inlined.add(name)
+                    return clone(e)
+            return c
+
+    def block(stmts: list[ast.stmt]) -> list[ast.stmt]:
+        out: list[ast.stmt] = []
+        for st in stmts:
+            if isinstance(st, ast.Expr) and isinstance(st.value, ast.Call):
+                rep = stmt_helper(st.value)
+                if rep is not None:
+                    out += rep  # one level: the inlined body is not scanned again
+                    continue
+            for f in ("body", "orelse", "finalbody"):
+                if isinstance(getattr(st, f, None), list) and not isinstance(st, (ast.FunctionDef, ast.AsyncFunctionDef, ast.ClassDef)):
+                    setattr(st, f, block(getattr(st, f)))
+            for h in getattr(st, "handlers", []) or []:
+                h.body = block(h.body)
+            out.append(st)
+        return out
+
+    new_fn.body = block(new_fn.body)
+    new_fn = Exprs().visit(new_fn)
+    for n in ast.walk(new_fn):
+        for ch in ast.iter_child_nodes(n):
+            ch._parent = n  # type: ignore[attr-defined]
+    return new_fn, inlined
